@@ -461,6 +461,16 @@ class Ctx:
         if name == 'fabs':
             return self.absatom(n.args[0])
         k = self.key(n)
+        if name == 'ldexp' and len(n.args) == 2:
+            # x * 2^k: the power of two is a positive atom keyed by the exponent expression (k and -k are reciprocal)
+            kx = n.args[1]; negk = False
+            if kx.op == 'sub' and kx.args[0].op == 'const' and T.const_value(kx.args[0]) == 0: kx = kx.args[1]; negk = True
+            if kx.op == 'const':
+                return self.rmul(self.rat(n.args[0]), (pconst(Fraction(2) ** T.signed(kx) if not negk else Fraction(2) ** (-T.signed(kx))), one))
+            ak = self.key(T.call('pow2', [kx], n.ty))
+            self.positive.add(ak)
+            pw = (patom(ak), one)
+            return self.rdiv(self.rat(n.args[0]), pw) if negk else self.rmul(self.rat(n.args[0]), pw)
         if name == 'sqrt':
             # sqrt(N/D) = sqrt(N)/sqrt(D) (arguments of sqrt are non-negative, denominators positive:
             # stated assumption); sqrt atoms are keyed by the *polynomial* under the root so that
